@@ -31,6 +31,11 @@ CLAIMED = {
          "quaternion, DCM->MRP preserve the rotation and return valid parameters (unit norm, |MRP|<=1, orthonormal det 1); the shadow switch never "
          "changes the rotation; Euler pitch in [-pi/2,pi/2]. Conversions INTO Euler form and the band tolerance: numeric search only (named in evidence).",
          "DESIGN.md §2 C07", TECH_T),
+ "C16": ("proof", "Lean 4 theorems over the quadrotor model regenerated from cyecca/models/quadrotor.py, for symbolic parameters: q.q'=0 and "
+         "q'=1/2 q*(0,w); Newton and Euler equations equal to the sum over rotors (+ground, drag, gravity); zero moment for equal speeds on a "
+         "symmetric frame; level hover with a quarter of the weight per rotor is an equilibrium (all 17 components); accelerometer zero in free "
+         "fall; motor relaxation sign/time constant; equivariance under horizontal translation and yaw of the world frame (17 components).",
+         "DESIGN.md §2 C16", TECH_T),
 }
 checks = []
 for pid, (cat, text, ref, tech) in CLAIMED.items():
